@@ -1,5 +1,6 @@
 import SoundeventModel.Ops.Common
 import SoundeventModel.Axis
+import SoundeventModel.AxisKernel
 namespace SE.Ops.C16
 open Lean SE SE.Axis
 
@@ -81,6 +82,13 @@ def handle (op : String) (a : Json) : Except String Json := do
   | "holds_index" =>
     let out ← getOut (fun j => j.getNat?) (← fld a "out")
     return boolJ (indexSpec (← getRatList (← fld a "coords")) (← fldRat a "v") (← fldBool a "raise") out)
+  | "range_robust" =>
+    -- the hypothesis of `C16_count_robust` on what numpy's arange returned, and the rule's result
+    let cs ← getRatList (← fld a "cs")
+    let thr ← fldRat a "thr"
+    let ok := arangeContract (← fldRat a "start") (← fldRat a "step") (← fldRat a "delta") thr
+      (← (← fld a "n").getNat?) cs
+    return Json.mkObj [("contract", boolJ ok), ("coords", ratsJ (dropTrailingAt thr cs))]
   | "noop" => return Json.null
   | _ => .error s!"C16: unknown op {op}"
 
